@@ -190,6 +190,65 @@ func runC08(c *Ctx) {
 			c.R.Ok(rule, key, cfg, p.Pos(in.Pos()), "retry <=> errors.As(err, *net.OpError) && Timeout()")
 		}
 	}
+	rulePacketRead(c, p, rule)
+	rulePacketDeadline(c, p, "C08.deadline")
+	codes := serverCodes(p)
+	okCodes := len(codes) > 0
+	for n, v := range codes {
+		if v < 0 || v >= 128 {
+			okCodes = false
+			c.R.Bad(rule, "codes/"+n, cfg, "", "packet code does not fit one uvarint byte")
+		}
+	}
+	if okCodes {
+		c.R.Ok(rule, "codes", cfg, "", sprintf("%d server packet codes, all < 128", len(codes)))
+	}
+	c.R.Assumptions = append(c.R.Assumptions,
+		"io.ReadFull / bufio / binary.ReadUvarint loop until the requested bytes arrived",
+		"decided: no partial read is interpreted, retry only between packets on unwrapped timeouts; not decided: identical results for all 2^(n-1) splits beyond these conditions")
+}
+
+// ruleReaderSource: the raw (undecompressed) stream of proto.Reader is touched only by the
+// constructor and the compression switch; every read goes through the selected data stream.
+func ruleReaderSource(c *Ctx, p *core.Program, rule string) {
+	c.R.Rule(rule, "who-may-access: proto.Reader.raw (the undecompressed transport stream) is accessed only by NewReader and EnableCompression/DisableCompression; every read method goes through Reader.Read, i.e. through the currently selected data stream - a read that bypasses the selection returns compressed frame bytes when compression is on (and only the code path that uses it is affected)")
+	cfg := p.Cfg.Name
+	n := 0
+	bad := false
+	for _, fn := range p.Funcs() {
+		for _, b := range fn.Blocks {
+			for _, in := range b.Instrs {
+				fa, ok := in.(*ssa.FieldAddr)
+				if !ok || !core.IsNamed(fa.X.Type(), core.PkgProto, "Reader") {
+					continue
+				}
+				f := fieldNameOnly(fa.X.Type(), fa.Field)
+				if f != "raw" && f != "decompressed" {
+					continue
+				}
+				n++
+				switch fn.Name() {
+				case "NewReader", "EnableCompression", "DisableCompression":
+				default:
+					bad = true
+					c.R.Bad(rule, core.FuncName(fn)+"/"+f, cfg, p.Pos(fa.Pos()), "Reader."+f+" is used directly by "+core.FuncName(fn)+": the read bypasses the data-stream selection")
+				}
+			}
+		}
+	}
+	if n < 3 {
+		c.R.Unk(rule, "proto.Reader.raw", cfg, "", "accesses to Reader.raw not found (anchor lost)")
+	} else if !bad {
+		c.R.Ok(rule, "proto.Reader.raw", cfg, "", sprintf("%d accesses, all in NewReader / Enable- / DisableCompression", n))
+	}
+}
+
+// rulePacketRead: packet() reads one code under a deadline that a defer resets.
+func rulePacketRead(c *Ctx, p *core.Program, rule string) {
+	cfg := p.Cfg.Name
+	if rule != "C08.retry" {
+		c.R.Rule(rule, "packet() performs exactly one wire read under the per-packet read deadline, and a defer that calls SetReadDeadline (with the zero time) is registered between setting the deadline and that read, so the bytes of the packet body are not governed by it")
+	}
 	pkf := p.Method(core.PkgCh, "Client", "packet")
 	if c.must(p, "(*ch.Client).packet", pkf != nil) {
 		rd := readerClass(p)
@@ -242,54 +301,5 @@ func runC08(c *Ctx) {
 				c.R.Ok(rule, core.FuncName(pkf)+"/reset", cfg, p.Pos(set.Pos()), "deadline reset deferred before the read")
 			}
 		}
-	}
-	codes := serverCodes(p)
-	okCodes := len(codes) > 0
-	for n, v := range codes {
-		if v < 0 || v >= 128 {
-			okCodes = false
-			c.R.Bad(rule, "codes/"+n, cfg, "", "packet code does not fit one uvarint byte")
-		}
-	}
-	if okCodes {
-		c.R.Ok(rule, "codes", cfg, "", sprintf("%d server packet codes, all < 128", len(codes)))
-	}
-	c.R.Assumptions = append(c.R.Assumptions,
-		"io.ReadFull / bufio / binary.ReadUvarint loop until the requested bytes arrived",
-		"decided: no partial read is interpreted, retry only between packets on unwrapped timeouts; not decided: identical results for all 2^(n-1) splits beyond these conditions")
-}
-
-// ruleReaderSource: the raw (undecompressed) stream of proto.Reader is touched only by the
-// constructor and the compression switch; every read goes through the selected data stream.
-func ruleReaderSource(c *Ctx, p *core.Program, rule string) {
-	c.R.Rule(rule, "who-may-access: proto.Reader.raw (the undecompressed transport stream) is accessed only by NewReader and EnableCompression/DisableCompression; every read method goes through Reader.Read, i.e. through the currently selected data stream - a read that bypasses the selection returns compressed frame bytes when compression is on (and only the code path that uses it is affected)")
-	cfg := p.Cfg.Name
-	n := 0
-	bad := false
-	for _, fn := range p.Funcs() {
-		for _, b := range fn.Blocks {
-			for _, in := range b.Instrs {
-				fa, ok := in.(*ssa.FieldAddr)
-				if !ok || !core.IsNamed(fa.X.Type(), core.PkgProto, "Reader") {
-					continue
-				}
-				f := fieldNameOnly(fa.X.Type(), fa.Field)
-				if f != "raw" && f != "decompressed" {
-					continue
-				}
-				n++
-				switch fn.Name() {
-				case "NewReader", "EnableCompression", "DisableCompression":
-				default:
-					bad = true
-					c.R.Bad(rule, core.FuncName(fn)+"/"+f, cfg, p.Pos(fa.Pos()), "Reader."+f+" is used directly by "+core.FuncName(fn)+": the read bypasses the data-stream selection")
-				}
-			}
-		}
-	}
-	if n < 3 {
-		c.R.Unk(rule, "proto.Reader.raw", cfg, "", "accesses to Reader.raw not found (anchor lost)")
-	} else if !bad {
-		c.R.Ok(rule, "proto.Reader.raw", cfg, "", sprintf("%d accesses, all in NewReader / Enable- / DisableCompression", n))
 	}
 }
